@@ -329,6 +329,12 @@ class PrepareAst:
                 for cond, expr in result.branches.items()
             ]
 
+            # VHDL requires every choice to be listed exactly once
+            choices = [(type(cond).__name__, str(cond)) for cond, _ in branches]
+            assert len(set(choices)) == len(
+                choices
+            ), "select_with lists the same choice more than once"
+
             # without a default value an unlisted selector value would leave
             # the result undefined (it would keep the value of an earlier
             # evaluation in sequential contexts)
@@ -1869,6 +1875,7 @@ class PrepareAst:
 
             cases: list[typing.Tuple[out.Expression, out.CodeBlock]] = []
             default_body = None
+            seen_patterns = set()
 
             for case in inp.cases:
                 assert (
@@ -1888,6 +1895,14 @@ class PrepareAst:
                     )
 
                     pattern._result = pattern_val
+
+                    # a repeated pattern can never match (the first one wins) and
+                    # would end up as a duplicate choice of the emitted case statement
+                    pattern_key = (type(pattern_val).__name__, str(pattern_val))
+                    assert (
+                        pattern_key not in seen_patterns
+                    ), f"pattern '{pattern_val}' is listed more than once in match statement"
+                    seen_patterns.add(pattern_key)
 
                     cond = out.Compare(
                         out.Compare.Operator.EQ, subject, pattern, Temporary[bool]()
